@@ -36,8 +36,23 @@
       [pmm_apply] : the entry point as a function of the list;
     - [vstate] : the rangeMap / countMap fields of ONE NodeVisitor object; [run_v st rows fb t] : a
       Run of that object on tree [t] ([rows] = NameToRangesMap of the node given to this Run);
-      [vsession st runs] : what consecutive Runs of one object hand to the callback. *)
+      [vsession st runs] : what consecutive Runs of one object hand to the callback;
+    - (Model/Delivered.v, on top of property C11's model of Reference.RawBytes in Model/Refs.v)
+      [delivered content rs] : Reference.RawBytes() of the reference every data source answers
+      with -- {Artifact: the BIOS image holding [content], AddressMapper: PhysMemMapper{},
+      Ranges: rs (physical addresses)} -- i.e. what Data.RawBytes() hands to the hash;
+      [delivered_data content refs] : Data.RawBytes() for several such references;
+      [mem_ranges_bytes] / [guid_first_bytes content reported] / [uefi_files_bytes content
+      reported] : MemRanges / UEFIGUIDFirst{g} / UEFIFiles(pred) followed by Data.RawBytes(),
+      [reported] = the ranges (image offsets) the walker handed over for the selected objects;
+      [pick cov k l] : the elements of [l] (positions k, k+1, ...) at the positions [cov]
+      selects, each once, ascending; [covers rs k] : k lies in one of the ranges;
+      [bytes_at_addrs content rs] : the image bytes whose address 4 GiB - size + offset is
+      covered by [rs]; [bytes_at_offsets content rs] : the image bytes whose offset is. *)
 From CSS Require Import Lib.Base Model.AddrMap Proofs.AddrMap Proofs.AddrMapExt.
+From CSS Require Import Model.Delivered.
+From CSS Require Proofs.Delivered.
+From Coq Require Import Permutation.
 
 (** * 1. Address maps are mutually inverse — for every 64-bit value and every size *)
 
@@ -429,3 +444,144 @@ Example C14_mapper_session_example :
      [[(1, 1); (4294905856, 32); (7, 7)]; [(0, 16); (4096, 32)]; [(0, 16); (4096, 32)];
       [(4294901760, 16); (4294905856, 32)]]).
 Proof. exact mapper_session_example. Qed.
+
+(** * 10. The BYTES a data-source result delivers are exactly the bytes of the image positions
+      its ranges name -- each named position once, in ascending order, nothing else -- for
+      EVERY list of ranges inside the image's address window: in any order, overlapping,
+      one inside the other, given twice, empty.  (What is hashed and extended is
+      Data.RawBytes(); a reference whose ranges are right but whose bytes carry, say, a zero
+      tail as long as the overlap changes every digest silently.) *)
+
+Theorem C14_delivered_bytes_exact :
+  forall content,
+    zlen content <= BASE ->
+    forall rs,
+    Forall (fun r => BASE - zlen content <= fst r /\ 0 <= snd r /\ fst r + snd r <= BASE) rs ->
+    delivered content rs = Ok (bytes_at_addrs content rs).
+Proof. exact Proofs.Delivered.delivered_exact. Qed.
+Print Assumptions C14_delivered_bytes_exact.
+
+(** non-vacuity and a reading aid: ranges [a+2,+3) [a+3,+4) [a,+1) over an 8-byte image
+    (a = 4 GiB - 8): positions 0, 2..6; the lengths add up to 8, six bytes are delivered *)
+Example C14_delivered_bytes_example :
+  delivered [10; 11; 12; 13; 14; 15; 16; 17] [(4294967290, 3); (4294967291, 4); (4294967288, 1)]
+    = Ok [10; 12; 13; 14; 15; 16]
+  /\ bytes_at_addrs [10; 11; 12; 13; 14; 15; 16; 17] [(4294967290, 3); (4294967291, 4); (4294967288, 1)]
+    = [10; 12; 13; 14; 15; 16].
+Proof. split; vm_compute; reflexivity. Qed.
+
+(** the delivered bytes depend on the SET of named addresses only ... *)
+Theorem C14_delivered_bytes_named_set_only :
+  forall content,
+    zlen content <= BASE ->
+    forall rs rs',
+    Forall (fun r => BASE - zlen content <= fst r /\ 0 <= snd r /\ fst r + snd r <= BASE) rs ->
+    Forall (fun r => BASE - zlen content <= fst r /\ 0 <= snd r /\ fst r + snd r <= BASE) rs' ->
+    (forall a, covers rs a = covers rs' a) ->
+    delivered content rs = delivered content rs'.
+Proof. exact Proofs.Delivered.delivered_same_set. Qed.
+Print Assumptions C14_delivered_bytes_named_set_only.
+
+(** ... so not on the order of the list ... *)
+Theorem C14_delivered_bytes_any_order :
+  forall content,
+    zlen content <= BASE ->
+    forall rs rs',
+    Forall (fun r => BASE - zlen content <= fst r /\ 0 <= snd r /\ fst r + snd r <= BASE) rs ->
+    Permutation rs rs' ->
+    delivered content rs = delivered content rs'.
+Proof. exact Proofs.Delivered.delivered_perm. Qed.
+Print Assumptions C14_delivered_bytes_any_order.
+
+(** ... and ranges that name nothing new (the same range again, a range inside the others, a
+    range overlapping them only where they already are) add nothing: no byte twice, no padding *)
+Theorem C14_delivered_bytes_overlap_adds_nothing :
+  forall content,
+    zlen content <= BASE ->
+    forall rs extra,
+    Forall (fun r => BASE - zlen content <= fst r /\ 0 <= snd r /\ fst r + snd r <= BASE) rs ->
+    Forall (fun r => BASE - zlen content <= fst r /\ 0 <= snd r /\ fst r + snd r <= BASE) extra ->
+    (forall a, covers extra a = true -> covers rs a = true) ->
+    delivered content (rs ++ extra) = delivered content rs.
+Proof. exact Proofs.Delivered.delivered_absorb. Qed.
+Print Assumptions C14_delivered_bytes_overlap_adds_nothing.
+
+(** never more bytes than the image holds, whatever the lengths of the ranges add up to *)
+Theorem C14_delivered_bytes_length :
+  forall content,
+    zlen content <= BASE ->
+    forall rs bs,
+    Forall (fun r => BASE - zlen content <= fst r /\ 0 <= snd r /\ fst r + snd r <= BASE) rs ->
+    delivered content rs = Ok bs -> zlen bs <= zlen content.
+Proof. exact Proofs.Delivered.delivered_length. Qed.
+Print Assumptions C14_delivered_bytes_length.
+
+(** sorting and merging the addresses before the reference is built (UEFIFiles, VolumeOf) or
+    not (UEFIGUIDFirst, MemRanges, FITAll, IBB) delivers the same bytes *)
+Theorem C14_delivered_bytes_merge_first_immaterial :
+  forall content,
+    zlen content <= BASE ->
+    forall rs,
+    Forall (fun r => BASE - zlen content <= fst r /\ 0 <= snd r /\ fst r + snd r <= BASE) rs ->
+    delivered content (sort_merge rs) = delivered content rs.
+Proof. exact Proofs.Delivered.delivered_sort_merge. Qed.
+Print Assumptions C14_delivered_bytes_merge_first_immaterial.
+
+(** a Data with several references (PCR0_DATA): the pieces one after the other, in list order *)
+Theorem C14_delivered_data_exact :
+  forall content,
+    zlen content <= BASE ->
+    forall refs,
+    Forall (Forall (fun r => BASE - zlen content <= fst r /\ 0 <= snd r /\ fst r + snd r <= BASE)) refs ->
+    delivered_data content refs = Ok (concat (map (bytes_at_addrs content) refs)).
+Proof. exact Proofs.Delivered.delivered_data_exact. Qed.
+Print Assumptions C14_delivered_data_exact.
+
+(** Data sources.  MemRanges: the bytes at the addresses given. *)
+Theorem C14_mem_ranges_bytes_exact :
+  forall content,
+    zlen content <= BASE ->
+    forall rs,
+    Forall (fun r => BASE - zlen content <= fst r /\ 0 <= snd r /\ fst r + snd r <= BASE) rs ->
+    mem_ranges_bytes content rs = Ok (bytes_at_addrs content rs).
+Proof. exact Proofs.Delivered.delivered_exact. Qed.
+Print Assumptions C14_mem_ranges_bytes_exact.
+
+(** UEFIGUIDFirst{g}: the bytes at the image offsets the walker reported for the objects named
+    g -- also when the container fallback reports the same container once per object in it
+    (several objects of that name in one compressed section), or a volume and a file inside it *)
+Theorem C14_guid_first_bytes_exact :
+  forall content,
+    zlen content <= BASE ->
+    forall reported, reported <> [] ->
+    Forall (fun r => 0 <= fst r /\ 0 <= snd r /\ fst r + snd r <= zlen content) reported ->
+    guid_first_bytes content reported = Ok (bytes_at_offsets content reported).
+Proof. exact Proofs.Delivered.guid_first_exact. Qed.
+Print Assumptions C14_guid_first_bytes_exact.
+
+Example C14_guid_first_bytes_example :
+  guid_first_bytes [10; 11; 12; 13; 14; 15; 16; 17] [(2, 4); (2, 4); (3, 1)] = Ok [12; 13; 14; 15].
+Proof. vm_compute. reflexivity. Qed.
+
+(** UEFIFiles(pred): likewise (no selected file: no bytes) *)
+Theorem C14_uefi_files_bytes_exact :
+  forall content,
+    zlen content <= BASE ->
+    forall reported,
+    Forall (fun r => 0 <= fst r /\ 0 <= snd r /\ fst r + snd r <= zlen content) reported ->
+    uefi_files_bytes content reported = Ok (bytes_at_offsets content reported).
+Proof. exact Proofs.Delivered.uefi_files_exact. Qed.
+Print Assumptions C14_uefi_files_bytes_exact.
+
+(** The statements have teeth: a Reference.RawBytes that sizes its buffer from the ranges as
+    given and merges them afterwards ([delivered_presized]) agrees with [delivered] on a list
+    without overlap and delivers a zero tail as long as the overlap otherwise -- which
+    C14_delivered_bytes_exact excludes. *)
+Theorem C14_delivered_presized_witness :
+  let content := [10; 11; 12; 13; 14; 15; 16; 17] in
+  Proofs.Delivered.delivered_presized content [(4294967290, 3); (4294967294, 2)]
+    = delivered content [(4294967290, 3); (4294967294, 2)]
+  /\ delivered content [(4294967290, 3); (4294967291, 4)] = Ok [12; 13; 14; 15; 16]
+  /\ Proofs.Delivered.delivered_presized content [(4294967290, 3); (4294967291, 4)]
+    = Ok [12; 13; 14; 15; 16; 0; 0].
+Proof. repeat split; vm_compute; reflexivity. Qed.
